@@ -307,6 +307,43 @@ func c14Case(c *fw.Ctx, ctx context.Context, coll lungo.ICollection, d bson.D, p
 			c.Violate("project:driver-differs", "FindOneAndUpdate (return before) with projection returned another document than Project", w)
 		}
 		coll.UpdateOne(ctx, bson.D{{Key: "_id", Value: int32(1)}}, bson.D{{Key: "$unset", Value: bson.D{{Key: "zz9", Value: ""}}}})
+		// several documents through one Find: each result must be what projecting
+		// that document alone gives (no state may leak from one document to the next)
+		if !overlapping {
+			mr := fw.NewRand(uint64(idx)*7919 + 17)
+			variants := []bson.D{c14Variant(mr, d, 3), append(bson.D{{Key: "_id", Value: int32(4)}}, gen.Doc(mr, gen.DefaultOpts(gen.Core), false)...), c14Variant(mr, d, 5)}
+			ins := []interface{}{}
+			for _, v := range variants {
+				ins = append(ins, v)
+			}
+			coll.InsertMany(ctx, ins)
+			all := append([]bson.D{d, other}, variants...)
+			cur, err := coll.Find(ctx, bson.D{}, options.Find().SetProjection(proj))
+			var many []bson.D
+			if err == nil {
+				err = cur.All(ctx, &many)
+			}
+			c.Count("driver_multi_compared", 1)
+			if err != nil || len(many) != len(all) {
+				w["find_result"] = jsonList(many)
+				c.Violate("project:driver-multi", fmt.Sprintf("Find over %d documents with a projection returned %d documents (err=%v)", len(all), len(many), err), w)
+			} else {
+				for i := range all {
+					sd, pc2 := gen.CloneDoc(all[i]), gen.CloneDoc(proj)
+					alone, aerr := mongokit.Project(&sd, &pc2)
+					if aerr != nil || !ref.SameFieldSet(many[i], *alone) {
+						w["documents"] = jsonList(all)
+						w["find_result"] = jsonList(many)
+						if aerr == nil {
+							w["projected_alone"] = gen.JSON(*alone)
+						}
+						c.Violate("project:driver-multi", fmt.Sprintf("result %d of a Find over several documents differs from projecting that document alone", i), w)
+						break
+					}
+				}
+			}
+			coll.DeleteMany(ctx, bson.D{{Key: "_id", Value: bson.D{{Key: "$gte", Value: int32(3)}}}})
+		}
 		dump1 := dumpColl(ctx, coll)
 		if dump0 != dump1 {
 			w["before"] = dump0
@@ -314,6 +351,42 @@ func c14Case(c *fw.Ctx, ctx context.Context, coll lungo.ICollection, d bson.D, p
 			c.Violate(orGeneric(c14Key(proj), "project:driver-mutates"), "the stored collection / a later unprojected Find changed after projecting", w)
 		}
 	}
+}
+
+// c14Variant copies d with a new _id and some arrays emptied or replaced by
+// scalars (so that operator projections apply to one document but not the next).
+func c14Variant(r *fw.Rand, d bson.D, id int32) bson.D {
+	var walk func(v interface{}) interface{}
+	walk = func(v interface{}) interface{} {
+		switch x := v.(type) {
+		case bson.D:
+			out := make(bson.D, 0, len(x))
+			for _, e := range x {
+				out = append(out, bson.E{Key: e.Key, Value: walk(e.Value)})
+			}
+			return out
+		case bson.A:
+			switch r.Intn(4) {
+			case 0:
+				return bson.A{}
+			case 1:
+				return int32(7)
+			case 2:
+				if len(x) > 1 {
+					return bson.A{walk(x[0])}
+				}
+			}
+			out := make(bson.A, 0, len(x))
+			for _, e := range x {
+				out = append(out, walk(e))
+			}
+			return out
+		}
+		return v
+	}
+	out := walk(gen.CloneDoc(d)).(bson.D)
+	out[0].Value = id
+	return out
 }
 
 // c14Key: input signatures for known findings.
